@@ -220,6 +220,147 @@ fn run_json_malformed(cx: &mut CaseCx, _case: &Value) {
 }
 
 
+
+/// every structural single mutation of a JSON document: a member deleted, a value replaced by null / "" /
+/// [] / {} / 0 / false / a string, an array shortened at either end, emptied or extended
+fn struct_mutants(root: &Value) -> Vec<(String, Value)> {
+  fn rec(root: &Value, cur: &Value, ptr: &mut Vec<String>, out: &mut Vec<(String, Value)>) {
+    let pointer = |ptr: &Vec<String>| format!("/{}", ptr.join("/"));
+    let set = |ptr: &Vec<String>, nv: Option<Value>| -> Value {
+      let mut r = root.clone();
+      let (last, parents) = ptr.split_last().unwrap();
+      let mut at = &mut r;
+      for k in parents {
+        at = if at.is_array() { &mut at[k.parse::<usize>().unwrap()] } else { &mut at[k.as_str()] };
+      }
+      match nv {
+        Some(x) => {
+          if at.is_array() {
+            at[last.parse::<usize>().unwrap()] = x;
+          } else {
+            at[last.as_str()] = x;
+          }
+        }
+        None => {
+          if let Some(a) = at.as_array_mut() {
+            a.remove(last.parse::<usize>().unwrap());
+          } else if let Some(o) = at.as_object_mut() {
+            o.remove(last.as_str());
+          }
+        }
+      }
+      r
+    };
+    if !ptr.is_empty() {
+      out.push((format!("{} deleted", pointer(ptr)), set(ptr, None)));
+      for (name, nv) in [("null", Value::Null), ("\"\"", json!("")), ("[]", json!([])), ("{}", json!({})), ("0", json!(0)), ("false", json!(false)), ("\"AAAA\"", json!("AAAA")), ("[0]", json!([0])), ("256", json!(256)), ("-1", json!(-1)), ("1.5", json!(1.5))] {
+        if &nv != cur {
+          out.push((format!("{} replaced by {}", pointer(ptr), name), set(ptr, Some(nv))));
+        }
+      }
+    }
+    match cur {
+      Value::Object(o) => {
+        for (k, child) in o {
+          ptr.push(k.clone());
+          rec(root, child, ptr, out);
+          ptr.pop();
+        }
+      }
+      Value::Array(a) => {
+        if !ptr.is_empty() {
+          let mut longer = a.clone();
+          longer.push(a.last().cloned().unwrap_or(json!(0)));
+          out.push((format!("{} extended by one element", pointer(ptr)), set(ptr, Some(Value::Array(longer)))));
+          if a.len() > 1 {
+            out.push((format!("{} without its first element", pointer(ptr)), set(ptr, Some(Value::Array(a[1..].to_vec())))));
+          }
+        }
+        // single elements: only the first, the last and one in the middle (the interior of a byte array is uniform)
+        let n = a.len();
+        let mut idx = vec![0usize, n / 2, n.saturating_sub(1)];
+        idx.dedup();
+        for i in idx {
+          if i < n {
+            ptr.push(i.to_string());
+            rec(root, &a[i], ptr, out);
+            ptr.pop();
+          }
+        }
+      }
+      _ => {}
+    }
+  }
+  let mut out = vec![];
+  rec(root, root, &mut vec![], &mut out);
+  out
+}
+/// JSON with null members removed (an absent optional member and an explicit null are the same document)
+fn strip_nulls(v: &Value) -> Value {
+  match v {
+    Value::Object(o) => Value::Object(o.iter().filter(|(_, x)| !x.is_null()).map(|(k, x)| (k.clone(), strip_nulls(x))).collect()),
+    Value::Array(a) => Value::Array(a.iter().map(strip_nulls).collect()),
+    x => x.clone(),
+  }
+}
+
+/// nothing is invented on the way in: whatever JSON restores to a value, the value re-serialises to that JSON
+fn run_json_structure(cx: &mut CaseCx, _case: &Value) {
+  cx.entropy(655);
+  let server = pp::Server::new(vec![1, 2]).expect("server");
+  let (blinded, _) = pp::Client::blind(b"json structure");
+  let with_proof = server.eval(&blinded, 1, true).expect("eval");
+  let without = server.eval(&blinded, 2, false).expect("eval");
+  // Evaluation (with and without proof), the bare proof, the bare point
+  let docs: Vec<(&str, Value)> = vec![
+    ("Evaluation with proof", serde_json::to_value(&with_proof).expect("json")),
+    ("Evaluation without proof", serde_json::to_value(&without).expect("json")),
+    ("ProofDLEQ", serde_json::to_value(with_proof.proof.as_ref().expect("proof")).expect("json")),
+    ("Point", serde_json::to_value(&blinded).expect("json")),
+  ];
+  for (kind, doc) in docs {
+    // the untouched document restores and re-serialises to itself
+    let restore = |v: &Value| -> Result<Result<Value, String>, String> {
+      let js = v.to_string();
+      guard(|| match kind {
+        "ProofDLEQ" => serde_json::from_str::<pp::ProofDLEQ>(&js).map_err(|e| e.to_string()).and_then(|x| serde_json::to_value(&x).map_err(|e| e.to_string())),
+        "Point" => serde_json::from_str::<pp::Point>(&js).map_err(|e| e.to_string()).and_then(|x| serde_json::to_value(&x).map_err(|e| e.to_string())),
+        _ => serde_json::from_str::<pp::Evaluation>(&js).map_err(|e| e.to_string()).and_then(|x| serde_json::to_value(&x).map_err(|e| e.to_string())),
+      })
+    };
+    cx.eval();
+    match restore(&doc) {
+      Ok(Ok(back)) if strip_nulls(&back) == strip_nulls(&doc) => cx.count("json_accepted", 1),
+      other => {
+        cx.viol("C15/evaluation-json-load-failed", format!("the JSON form of an honest {} does not restore to itself: {:?}", kind, other.map(|r| r.map(|v| v.to_string().chars().take(80).collect::<String>()))), json!({"kind": kind}));
+        continue;
+      }
+    }
+    for (how, m) in struct_mutants(&doc) {
+      cx.eval();
+      cx.nontrivial(fnv_str(&format!("{}|{}", kind, how)));
+      match restore(&m) {
+        Err(p) => cx.viol("C15/json-load-panicked", format!("restoring a {} from JSON panicked ({}): {}", kind, how, p.chars().take(120).collect::<String>()), json!({"kind": kind, "mutation": how})),
+        Ok(Err(_)) => cx.count("json_refused", 1),
+        Ok(Ok(back)) => {
+          if strip_nulls(&back) == strip_nulls(&m) {
+            // a different but complete document (e.g. the proof dropped as a whole): nothing was invented
+            cx.count("json_accepted_as_given", 1);
+          } else {
+            cx.viol(
+              "C15/json-partial-value-accepted/structure",
+              format!("a {} JSON document with {} was restored instead of refused, and the restored value holds data the document does not contain (it re-serialises differently): a partially initialised value", kind, how),
+              json!({"kind": kind, "mutation": how, "document": m.to_string().chars().take(300).collect::<String>(), "restored_as": back.to_string().chars().take(300).collect::<String>()}),
+            );
+            return;
+          }
+        }
+      }
+    }
+  }
+  cx.outcome("json structure");
+}
+
 /// proof scalars at the group-order boundary; every write-failure point of the JSON serialisation
 fn run_boundaries(cx: &mut CaseCx, _case: &Value) {
   use curve25519_dalek::scalar::Scalar;
@@ -498,6 +639,13 @@ pub fn spec() -> PropSpec {
         gen: |_| vec![json!({})],
         run: run_json_malformed,
         min_counts: &[("json_refused", 100), ("json_accepted", 1)],
+      },
+      Check {
+        name: "json-structure",
+        rule: "the JSON documents of an Evaluation with proof, one without, a bare ProofDLEQ and a bare Point, under EVERY single structural mutation (each member / first, middle, last array element deleted or replaced by null, \"\", [], {}, 0, false, a string, [0], 256, -1, 1.5; arrays extended or shortened): restoring is an error, or the restored value re-serialises to exactly the given document (absent member == null) - a value holding data the document does not contain is a partially initialised value",
+        gen: |_| vec![json!({})],
+        run: run_json_structure,
+        min_counts: &[("json_refused", 100), ("json_accepted", 4)],
       },
       Check {
         name: "scalar-boundaries-and-write-failures",
